@@ -53,12 +53,9 @@ std::string owned(const std::string& clause, std::initializer_list<const char*> 
 }
 bool Outcome::fail(const std::string& c, const std::string& d) {
   bool own = G.own_prefix.empty() || c.rfind(G.own_prefix, 0) == 0 || c.rfind("MACHINERY", 0) == 0;
-  // a clause after which the rest of the operation's oracle cannot be evaluated (the call itself failed)
-  bool blocking = c.find("failed") != std::string::npos || c.find("rejected") != std::string::npos || c.find("refused") != std::string::npos ||
-                  c.find("despite") != std::string::npos || c.find("size_query_zero") != std::string::npos;
   if (!own) {
     foreign.push_back(c);
-    return blocking;
+    return false; // noted; the operation goes on evaluating (sites where it cannot use FAIL_STOP)
   }
   if (clause.empty()) {
     clause = c;
